@@ -5,12 +5,14 @@ package main
 import (
 	"fmt"
 	"go/ast"
+	"go/token"
 	"go/types"
 	"os"
 	"sort"
 	"strconv"
 	"strings"
 	"sync"
+	"time"
 
 	"golang.org/x/tools/go/ssa"
 )
@@ -189,6 +191,7 @@ type Loc struct {
 	ref  string
 	t    types.Type
 	sl   Val
+	keep []string // allbut: key prefixes that are NOT modified
 }
 
 func (e *SpecEnv) evalLoc(m ast.Expr) []Loc {
@@ -242,6 +245,9 @@ func (e *SpecEnv) evalLoc(m ast.Expr) []Loc {
 		return []Loc{{kind: "cell", key: cellKey(pt.Elem()), ref: p.S, t: pt.Elem()}}
 	case *ast.CallExpr:
 		id, _ := n.Fun.(*ast.Ident)
+		if id != nil && id.Name == "allbut" {
+			return []Loc{{kind: "allbut", keep: x.keepPrefixes(e.pkg, n.Args)}}
+		}
 		if id != nil && len(n.Args) == 1 {
 			switch id.Name {
 			case "val":
@@ -281,10 +287,60 @@ func (e *SpecEnv) evalLoc(m ast.Expr) []Loc {
 	return nil
 }
 
+// keepPrefixes: heap-key prefixes named by the arguments of allbut(...): a struct type (its fields), a slice type (its elements),
+// or a package name (its variables)
+func (x *Exec) keepPrefixes(pkg string, args []ast.Expr) []string {
+	var out []string
+	for _, a := range args {
+		if lit, ok := a.(*ast.BasicLit); ok && lit.Kind == token.STRING {
+			// a ghost array
+			nm, _ := strconv.Unquote(lit.Value)
+			out = append(out, "G."+nm)
+			continue
+		}
+		if t := x.eng.resolveType(pkg, a); t != nil {
+			switch u := t.Underlying().(type) {
+			case *types.Struct:
+				out = append(out, "H."+typeName(t)+".")
+			case *types.Slice:
+				out = append(out, elemKey(u.Elem()))
+			default:
+				sfail("modifies allbut: unsupported type %s", exprString(a))
+			}
+			continue
+		}
+		if id, ok := a.(*ast.Ident); ok {
+			if ps := x.eng.resolvePkgName(pkg, id.Name); ps != "" {
+				out = append(out, "G."+sanitize(ps)+".")
+				continue
+			}
+		}
+		sfail("modifies allbut: %s is neither a type nor a package", exprString(a))
+	}
+	return out
+}
+
+func keptKey(keep []string, key string) bool {
+	for _, p := range keep {
+		if strings.HasPrefix(key, p) {
+			if strings.HasPrefix(p, "E.") {
+				// element keys: exact match up to the component suffix
+				if stripComp(key) != p {
+					continue
+				}
+			}
+			return true
+		}
+	}
+	return false
+}
+
 func (x *Exec) havocLoc(st *State, l Loc) {
 	switch l.kind {
 	case "all":
 		x.havocAll(st)
+	case "allbut":
+		x.havocAllBut(st, l.keep)
 	case "ghostall":
 		x.havocKey(st, l.key, mathInt)
 	case "field", "cell":
@@ -597,9 +653,13 @@ func (x *Exec) checkFrame(fr *Frame, st *State, env *SpecEnv) {
 	for _, m := range con.Modifies {
 		locs = append(locs, preEnv.evalLoc(m.Expr)...)
 	}
+	var keepOnly []string
 	for _, l := range locs {
 		if l.kind == "all" {
 			return
+		}
+		if l.kind == "allbut" {
+			keepOnly = l.keep
 		}
 	}
 	keys := make([]string, 0, len(st.heap))
@@ -609,6 +669,9 @@ func (x *Exec) checkFrame(fr *Frame, st *State, env *SpecEnv) {
 	sort.Strings(keys)
 	for _, k := range keys {
 		h := st.heap[k]
+		if keepOnly != nil && !keptKey(keepOnly, k) {
+			continue
+		}
 		if strings.HasPrefix(k, "C.") || strings.HasPrefix(k, "MD.") || strings.HasPrefix(k, "MV.") || strings.HasPrefix(k, "ML.") {
 			// cells of locals are fresh; map contents are checked per map ref below
 		}
@@ -900,58 +963,121 @@ func dischargeAll(results []*FuncResult, timeoutMs int, workers int) {
 	sem := make(chan struct{}, workers)
 	type job struct {
 		text  string
-		text2 string
 		obs   []*Oblig
+		first *Oblig
 		res   *FuncResult
+		r     SolveResult
 	}
 	var jobs []*job
+	tBuild := time.Now()
+	// vacuity canaries pass as soon as one returning path has a model: try the shortest, the median and the longest path first and
+	// the remaining ones only if all three are proved contradictory
+	deferred := map[*Oblig]bool{}
+	var later []*FuncResult
 	for _, res := range results {
-		byText := map[string]*job{}
+		groups := map[string][]*Oblig{}
 		for _, o := range res.Obs {
-			if o.Kind == "subset" || o.Kind == "target" {
-				o.Res = SolveResult{Status: "sat", Solver: "none", Output: o.Where}
+			if o.Canary && o.raw == "" {
+				groups[o.Name] = append(groups[o.Name], o)
+			}
+		}
+		for _, g := range groups {
+			if len(g) <= 3 {
 				continue
 			}
-			res.x.withQ = false
-			if o.raw != "" {
-				jobs = append(jobs, &job{text: o.raw, obs: []*Oblig{o}, res: res})
-				continue
+			sorted := append([]*Oblig{}, g...)
+			sort.SliceStable(sorted, func(i, j int) bool { return len(sorted[i].PC) < len(sorted[j].PC) })
+			pick := map[*Oblig]bool{sorted[0]: true, sorted[len(sorted)/2]: true, sorted[len(sorted)-1]: true}
+			for _, o := range g {
+				if !pick[o] {
+					deferred[o] = true
+					o.Res = SolveResult{Status: "skipped", Solver: "none", Output: "not needed: vacuity guard decided on other paths"}
+				}
 			}
-			text := res.decls.render(res.x.buildQuery(o))
-			text2 := ""
-			if o.hasQ {
-				res.x.withQ = true
-				text2 = res.decls.render(res.x.buildQuery(o))
-				res.x.withQ = false
-			}
-			if j, ok := byText[text]; ok {
-				j.obs = append(j.obs, o)
-				continue
-			}
-			j := &job{text: text, text2: text2, obs: []*Oblig{o}, res: res}
-			byText[text] = j
-			jobs = append(jobs, j)
+			later = append(later, res)
 		}
 	}
-	for _, j := range jobs {
+	defer func() {
+		// second round for canary groups whose sampled paths were all proved contradictory
+		var again []*Oblig
+		for _, res := range later {
+			groups := map[string][]*Oblig{}
+			for _, o := range res.Obs {
+				if o.Canary {
+					groups[o.Name] = append(groups[o.Name], o)
+				}
+			}
+			for _, g := range groups {
+				allUnsat, any := true, false
+				for _, o := range g {
+					if deferred[o] {
+						any = true
+						continue
+					}
+					if o.Res.Status != "unsat" {
+						allUnsat = false
+					}
+				}
+				if allUnsat && any {
+					for _, o := range g {
+						if deferred[o] {
+							again = append(again, o)
+						}
+					}
+				}
+			}
+		}
+		if len(again) == 0 {
+			return
+		}
+		var wg2 sync.WaitGroup
+		for _, o := range again {
+			var owner *FuncResult
+			for _, res := range later {
+				for _, q := range res.Obs {
+					if q == o {
+						owner = res
+					}
+				}
+			}
+			owner.x.withQ = false
+			text := owner.decls.render(owner.x.buildQuery(o))
+			wg2.Add(1)
+			sem <- struct{}{}
+			go func(o *Oblig, text string) {
+				defer wg2.Done()
+				defer func() { <-sem }()
+				o.Res = solveText(text, 4000)
+			}(o, text)
+		}
+		wg2.Wait()
+	}()
+	var buildMu sync.Mutex // query construction shares the declaration registry: one at a time
+	launch := func(j *job) {
 		wg.Add(1)
 		sem <- struct{}{}
-		go func(j *job) {
+		go func() {
 			defer wg.Done()
 			defer func() { <-sem }()
 			// first attempt: quantified assumptions replaced by their instances (quantifier-free); a proof here is a proof
-			cover := j.obs[0].Cover || j.obs[0].Canary
+			first := j.first
+			cover := first.Cover || first.Canary
 			tmo := timeoutMs
-			if j.obs[0].timeout > tmo {
-				tmo = j.obs[0].timeout
+			if first.timeout > tmo {
+				tmo = first.timeout
 			}
 			if cover && tmo > 4000 {
 				tmo = 4000
 			}
 			r := solveText(j.text, tmo)
-			if r.Status != "unsat" && j.text2 != "" && !cover {
+			if r.Status != "unsat" && first.hasQ && first.raw == "" && !cover {
 				// second attempt with the quantified assumptions themselves
-				r2 := solveText(j.text2, timeoutMs)
+				buildMu.Lock()
+				j.res.x.withQ = true
+				text2 := j.res.decls.render(j.res.x.buildQuery(first))
+				j.res.x.withQ = false
+				buildMu.Unlock()
+				r2 := solveText(text2, timeoutMs)
 				r2.Secs += r.Secs
 				if r2.Status == "unsat" || r2.Status == "sat" {
 					r = r2
@@ -963,19 +1089,55 @@ func dischargeAll(results []*FuncResult, timeoutMs int, workers int) {
 					r.Secs = r2.Secs
 				}
 			}
-			for _, o := range j.obs {
-				o.Res = r
-			}
+			j.r = r
 			if keepDir != "" {
 				sfx := ""
 				if j.res.x.bound >= 0 {
 					sfx = ".r1"
 				}
-				os.WriteFile(fmt.Sprintf("%s/%s%s.smt2", keepDir, sanitize(j.obs[0].Name), sfx), []byte(j.text), 0644)
+				os.WriteFile(fmt.Sprintf("%s/%s%s.smt2", keepDir, sanitize(first.Name), sfx), []byte(j.text), 0644)
 			}
-		}(j)
+		}()
+	}
+	for _, res := range results {
+		byText := map[string]*job{}
+		for _, o := range res.Obs {
+			if deferred[o] {
+				continue
+			}
+			if o.Kind == "subset" || o.Kind == "target" {
+				o.Res = SolveResult{Status: "sat", Solver: "none", Output: o.Where}
+				continue
+			}
+			if o.raw != "" {
+				j := &job{text: o.raw, obs: []*Oblig{o}, first: o, res: res}
+				jobs = append(jobs, j)
+				launch(j)
+				continue
+			}
+			buildMu.Lock()
+			res.x.withQ = false
+			text := res.decls.render(res.x.buildQuery(o))
+			buildMu.Unlock()
+			if j, ok := byText[text]; ok {
+				j.obs = append(j.obs, o)
+				continue
+			}
+			j := &job{text: text, obs: []*Oblig{o}, first: o, res: res}
+			byText[text] = j
+			jobs = append(jobs, j)
+			launch(j)
+		}
+	}
+	if os.Getenv("GOVC_DEBUG") != "" {
+		fmt.Fprintf(os.Stderr, "discharge: %d jobs built in %.2fs\n", len(jobs), time.Since(tBuild).Seconds())
 	}
 	wg.Wait()
+	for _, j := range jobs {
+		for _, o := range j.obs {
+			o.Res = j.r
+		}
+	}
 }
 
 // solveSide: quick synchronous check used during symbolic execution (no-wrap etc.): true iff unsat within a short budget
